@@ -14,3 +14,31 @@ package remote
 //@   at scan.NewVectorSelector assert[C10] identity-reread: $offset == 0 && $shard == 0 && $numShards == 1 &&
 //@       $queryOpts.LookbackDelta == 0 && $queryOpts.Start == opts.Start && $queryOpts.End == opts.End &&
 //@       $queryOpts.Step == opts.Step && $queryOpts.StepsBatch == opts.StepsBatch && $pool == pool
+
+// storageAdapter (C10, C15): the result of the remote query becomes the "storage" the re-reading selector
+// reads: a remote error is kept and returned, every series of a remote matrix becomes exactly one series
+// (same labels and points, signatures dense in remote order), every sample of a remote vector one series
+// with exactly that one point; the remote query is executed at most once and closed.
+//@ func (*storageAdapter).executeQuery
+//@   requires s != nil && ctx != nil && s.query != nil
+//@   panics may
+//@   assigns remote.storageAdapter.err, remote.storageAdapter.series
+//@   ensures[C10] remote-query-executed-once-and-closed: ncalls("promql.Query.Exec") == 1 && ncalls("promql.Query.Close") == 1
+//@   ensures[C10,C15] remote-error-is-kept: callres("promql.Query.Exec", 1).Err != nil ==> s.err != nil
+//@   ensures[C10] one-series-per-remote-series: callres("promql.Query.Exec", 1).Err == nil && istype(callres("promql.Query.Exec", 1).Value, promql.Matrix) ==>
+//@       len(s.series) == len(cast(callres("promql.Query.Exec", 1).Value, promql.Matrix)) && (forall j in 0..len(s.series) :: s.series[j].Signature == j && s.series[j].Series != nil)
+//@   ensures[C10] one-series-per-remote-sample: callres("promql.Query.Exec", 1).Err == nil && istype(callres("promql.Query.Exec", 1).Value, promql.Vector) ==>
+//@       len(s.series) == len(cast(callres("promql.Query.Exec", 1).Value, promql.Vector)) && (forall j in 0..len(s.series) :: s.series[j].Signature == j && s.series[j].Series != nil)
+//@   at promql.NewStorageSeries line "Series:    promql.NewStorageSeries(series)," assert[C10] remote-series-re-read-as-it-is: sameslice($series.Points, val[i].Points) && sameslice($series.Metric, val[i].Metric)
+//@   at promql.NewStorageSeries line "Series: promql.NewStorageSeries(promql.Series{" assert[C10] remote-sample-becomes-one-point: len($series.Points) == 1 && $series.Points[0].T == val[i].Point.T &&
+//@       $series.Points[0].V == val[i].Point.V && sameslice($series.Metric, val[i].Metric)
+//@   loop 0 invariant shape0: s != nil && len(s.series) == len(val) && fresh(s.series) && 0 <= rangeindex + 1 && rangeindex + 1 <= len(val) && len(val) <= 9223372036854775807
+//@   loop 0 invariant converted-so-far0: forall j in 0..rangeindex+1 :: s.series[j].Signature == j && s.series[j].Series != nil
+//@   loop 1 invariant shape1: s != nil && len(s.series) == len(val) && fresh(s.series) && 0 <= rangeindex + 1 && rangeindex + 1 <= len(val) && len(val) <= 9223372036854775807
+//@   loop 1 invariant converted-so-far1: forall j in 0..rangeindex+1 :: s.series[j].Signature == j && s.series[j].Series != nil
+//@ func (*storageAdapter).GetSeries
+//@   requires s != nil && ctx != nil && s.query != nil
+//@   panics may
+//@   assigns remote.storageAdapter.err, remote.storageAdapter.series, remote.storageAdapter.once
+//@   ensures[C15] remote-error-surfaces: s.err != nil ==> result1 != nil && isnil(result0)
+//@   ensures[C10] series-as-converted: s.err == nil ==> result1 == nil && sameslice(result0, s.series)
